@@ -159,6 +159,7 @@ type world struct {
 	callNo  int
 
 	lastReads int  // cache reads of the last controller call
+	broken    bool // a controller call panicked
 	finite    bool // small store limits (admissions get refused for quota)
 }
 
